@@ -19,7 +19,7 @@ polymorphic in the type of the nested thing.
 
 External behaviour that is a parameter: `Norm` (address.ForLookup, dns.ForLookup,
 validMatchRule, address.Valid — tables computed by the real functions in correspondence runs);
-table modules are finite key sets / finite multimaps without lookup errors; checks always pass
+table modules are finite key sets (with an answer latency nothing depends on) / finite multimaps without lookup errors; checks always pass
 (`check` directives only matter for loading); delivery targets accept everything.
 Not modelled: `sourceBlock.rejectErr` (never set by the parser), DMARC, body/commit stages.
 Core Lean only.
@@ -39,8 +39,16 @@ structure Norm where
   /-- `address.Valid` (applied to replacement values) -/
   validAddr : Str → Bool
 
-/-- table module used by `source_in` / `destination_in`: the set of keys it contains -/
-abbrev Table := List Str
+/-- table module used by `source_in` / `destination_in`: the set of keys it contains and the
+(virtual) time it takes to answer a lookup.  The latency is an input of a case (the harness' table
+modules answer after a scripted delay, in the order the case chooses); the selection never reads it
+(`firstIn`, `Props/C04.lean` `C04_lookup_order_ignores_latency`). -/
+structure Table where
+  keys : List Str
+  delay : Nat := 0
+deriving DecidableEq, Repr
+
+def Table.contains (t : Table) (k : Str) : Bool := t.keys.contains k
 /-- table module used by `replace_rcpt` / `replace_sender`: key ↦ values -/
 abbrev MTable := List (Str × List Str)
 
@@ -171,6 +179,28 @@ def firstIn {β} (l : List (Table × β)) (k : Str) : Option β :=
   match l.find? (fun p => p.1.contains k) with
   | some p => some p.2
   | none => none
+
+/-- the loops over `sourceIn` / `rcptIn` in `srcBlockForAddr` / `rcptBlockForAddr` with the time they
+take: one lookup after the other in declaration order, each one waited for; returns the block and
+the virtual time spent in lookups. -/
+def firstInTimed {β} : List (Table × β) → Str → Option β × Nat
+  | [], _ => (none, 0)
+  | (t, b) :: r, k =>
+    if t.contains k then (some b, t.delay)
+    else ((firstInTimed r k).1, t.delay + (firstInTimed r k).2)
+
+/-- the same tables with other latencies -/
+def retime {β} (f : Table → Nat) (l : List (Table × β)) : List (Table × β) :=
+  l.map fun p => ({ p.1 with delay := f p.1 }, p.2)
+
+/-- NOT what the code does (contrast for `Props/C04.lean`): all lookups started together, the block of
+the matching table that answers first (ties: declaration order). -/
+def firstAnswering {β} : List (Table × β) → Str → Option (Nat × β)
+  | [], _ => none
+  | (t, b) :: r, k =>
+    match firstAnswering r k with
+    | none => if t.contains k then some (t.delay, b) else none
+    | some (d, b') => if t.contains k && t.delay ≤ d then some (t.delay, b) else some (d, b')
 
 def r501_513 : Refusal := .reply ⟨501, 5, 1, 3⟩
 def r501_517 : Refusal := .reply ⟨501, 5, 1, 7⟩
